@@ -120,6 +120,12 @@ def bool_literal(t):
     return False
 
 
+def _tree_vars(t):
+    acc = set()
+    _vars(t, acc)
+    return acc
+
+
 def operand_models(tier, seed, meta, assoc_all=False):
     """Models around the expression trees of ExprGen (every operator over every pair of operand
     kinds: handle / integer / float / Boolean literal / compound, both orders): the tree as the
@@ -237,6 +243,8 @@ def check(tier, seed, replay=None):
         hs = hs[:700] if tier == "quick" else hs
         os_ = operand_models(tier, seed, meta)
         rnd = random.Random(seed)
+        d1, _, _ = core.gen_cases(rewrite.SPEC_DIR, "ExprGen.tla", "Gen_d1.cfg", "exd1", workers=8)
+        probe_pool = [c_["tree"] for c_ in d1 if well_typed(c_["tree"]) and not bool_literal(c_["tree"])]
         cases = []
         for i, c in enumerate(cs + hs + os_):
             plan = rnd.choice(pl[min(2, len(c["cons"]))])
@@ -250,6 +258,12 @@ def check(tier, seed, replay=None):
             case = dict(m, id=c["id"], plan=plan, decoy=DECOY,
                         text=render.program_min(m, style=i % 2, named=False) if not named else named_text(m, i % 2),
                         ktext=ktext, kconsts=[{"name": k_, "v": float(eval(v.strip("()").replace("(-", "-")))} for k_, v in nm.consts.items()])
+            # probes: expression trees that are not part of the model, over its variables, for eval() at the solution
+            names_ = {d_["name"] for d_ in m["dom"]}
+            ok_ = [t_ for t_ in probe_pool if _tree_vars(t_) <= names_]
+            # every min / max / abs / neg probe (their evaluators fold from a seed value) and a rotating share of the rest
+            case["probes"] = [t_ for t_ in ok_ if t_["op"] in ("min", "max", "abs", "neg")][(i % 3)::3] + \
+                             [t_ for t_ in ok_ if t_["op"] not in ("min", "max", "abs", "neg")][(i * 5) % 11::11][:10]
             # the builder is given the REAL objective and the decoy; the plan decides which one wins
             case["obj_real"] = c["obj"]
             cases.append(dict(case, obj=m["obj"], sense=m["sense"], builder_obj=c["obj"], builder_sense=c["sense"]))
